@@ -180,37 +180,67 @@ def r3_conflicts(ctx):
     if fn is None:
         r.missing("InterpolationKeys::push_count")
         return r
-    from rules import sem, dtable
-    from rules.dtable import C, A
-    nb = sem.nbody(ctx.ast, fn)
-    if re.search(r"self\.variables\.entry\w+\.or_default\.range_count\.replace\w+", sem.ftext(nb)):
-        r.inst("push_count#entry", "the count variable's own record: self.variables.entry(count_key).or_default().range_count.replace(ty)")
+    rows = push_count_table(ctx)
+    if rows is None:
+        r.missing("InterpolationKeys::push_count (evaluation)")
+        return r
+    from rules import absint
+    from rules.absint import C, A
+    unk = [x for x in rows if isinstance(x[2], str)]
+    if unk:
+        r.viol("R3:push_count#eval", "push_count cannot be evaluated: %s" % unk[0][2], file=fn.file, line=fn.line)
+        return r
+    stored_ok = all(stored == C("Some", n) and untouched for (p, n, out, stored, untouched) in rows)
+    if stored_ok:
+        r.inst("push_count#entry", "the previous count type is read from, and the new one stored in, the count variable's own record (other variables untouched)")
     else:
         r.viol("R3:push_count#entry", "the previous count type is not read from (and the new one stored in) the count variable's own record", file=fn.file, line=fn.line)
-    params = fn.params()
-    tyname = params[2] if len(params) > 2 else "ty"
-    dom = [("previous", r"\.range_count\.replace" + tyname + "$", [C("None"), C("Some", C("Plural")), C("Some", C("Range", A("a"))), C("Some", C("Range", A("b")))]),
-           ("new", "^" + tyname + "$", [C("Plural"), C("Range", A("a"))])]
+    want = {"ok": ("Ok", lambda p, n: p == C("None") or (p == C("Some", C("Plural")) and n == C("Plural"))),
+            "same-range": ("Ok", lambda p, n: p == C("Some", C("Range", A("a"))) and n == C("Range", A("a"))),
+            "mix": ("RangeAndPluralsMix", lambda p, n: (p == C("Some", C("Plural")) and n[1] == "Range") or (p[1] == "Some" and p[2][0][1] == "Range" and n == C("Plural"))),
+            "range-mismatch": ("RangeTypeMissmatch", lambda p, n: p == C("Some", C("Range", A("b"))) and n == C("Range", A("a")))}
 
     def classify(v):
         if v[0] == "ctor" and v[1] == "Ok":
             return "Ok"
         if v[0] == "ctor" and v[1] == "Err" and v[2] and v[2][0][0] == "ctor":
             return v[2][0][1]
-        return "?" + dtable.fmt(v)
-    names, tab = dtable.table(fn.body, dom, classify)
-    want = {"ok": ("Ok", lambda p, n: p == C("None") or (p == C("Some", C("Plural")) and n == C("Plural"))),
-            "same-range": ("Ok", lambda p, n: p == C("Some", C("Range", A("a"))) and n == C("Range", A("a"))),
-            "mix": ("RangeAndPluralsMix", lambda p, n: (p == C("Some", C("Plural")) and n[1] == "Range") or (p[1] == "Some" and p[2][0][1] == "Range" and n == C("Plural"))),
-            "range-mismatch": ("RangeTypeMissmatch", lambda p, n: p == C("Some", C("Range", A("b"))) and n == C("Range", A("a")))}
+        return "?" + absint.fmt(v)
     for k, (outcome, pred) in want.items():
-        rows = [(p, n) for (p, n) in tab if pred(p, n)]
-        bad = [(dtable.fmt(p), dtable.fmt(n), tab[(p, n)]) for (p, n) in rows if tab[(p, n)] != outcome]
-        if rows and not bad:
-            r.inst("push_count#" + k, "%d case(s) -> %s" % (len(rows), outcome))
+        sel = [(p, n, out) for (p, n, out, _st, _u) in rows if pred(p, n)]
+        bad = [(absint.fmt(p), absint.fmt(n), classify(out)) for (p, n, out) in sel if classify(out) != outcome]
+        if sel and not bad:
+            r.inst("push_count#" + k, "%d case(s) -> %s" % (len(sel), outcome))
         else:
             r.viol("R3:push_count#" + k, "conflict table changed for `%s`: (previous, new, outcome) = %s, expected %s" % (k, bad, outcome), file=fn.file, line=fn.line)
     return r
+
+
+def push_count_table(ctx):
+    """abstract evaluation of InterpolationKeys::push_count on a key set holding the count variable (previous type: none,
+    plural, range a, range b) and another variable: [(previous, new, result, stored type of the count variable, other
+    variable untouched)]"""
+    from rules import absint
+    from rules.absint import AEval, C, CF, A, L, T
+    funcs = absint.file_funcs(ctx.ast, PL, impl_self="InterpolationKeys")
+    pc = funcs.get("InterpolationKeys::push_count")
+    if pc is None:
+        return None
+    S = lambda x: ("str", x)  # noqa: E731
+    rows = []
+    other = CF("VarInfo", range_count=C("None"), formatters=L(A("g")))
+    for prev in (C("None"), C("Some", C("Plural")), C("Some", C("Range", A("a"))), C("Some", C("Range", A("b")))):
+        for ty in (C("Plural"), C("Range", A("a"))):
+            this = CF("InterpolationKeys", variables=L(T(S("other"), other), T(S("count"), CF("VarInfo", range_count=prev, formatters=L(A("f0"))))), components=L())
+            ev = AEval(funcs=funcs)
+            ev.default_value = CF("VarInfo", range_count=C("None"), formatters=L())
+            out = ev.run_fn(pc, [this, S("kp"), ty, S("count")])
+            if isinstance(out, str):
+                rows.append((prev, ty, out, None, False))
+                continue
+            vs = dict((k[1], v) for k, v in (x[1] for x in absint.fields_of(ev.last_env["self"])["variables"][1]))
+            rows.append((prev, ty, out, absint.fields_of(vs.get("count", C("None"))).get("range_count") if "count" in vs else None, vs.get("other") == other and len(vs) == 2))
+    return rows
 
 
 def r4_builder(ctx):
